@@ -199,6 +199,10 @@ func (r *rewriter) run() bool {
 		st.Imports[path]++
 		r.changed = true
 	}
+	// 2a. R/W events for the race detector (on the original nodes, before any restructuring)
+	if r.race {
+		r.insertRW()
+	}
 	// 2. statements and expressions
 	astutil.Apply(r.file, r.pre, r.post)
 	// 3. entry taps
@@ -472,4 +476,389 @@ func (r *rewriter) rewriteSelect(s *ast.SelectStmt) ast.Stmt {
 	sw := &ast.SwitchStmt{Tag: ast.NewIdent(iName), Body: &ast.BlockStmt{List: clauses}}
 	// a block keeps the temporaries local; a label on the select (rare) would be lost: refuse
 	return &ast.BlockStmt{List: []ast.Stmt{init, use, sw}}
+}
+
+// ---- R/W events for the happens-before race detector ---------------------------------------------
+
+type acc struct {
+	expr  ast.Expr // cloned expression whose address identifies the location
+	isMap bool
+	write bool
+	site  string
+}
+
+const modPrefix = "github.com/kercylan98/vivid"
+
+func (r *rewriter) insertRW() {
+	ast.Inspect(r.file, func(n ast.Node) bool {
+		switch b := n.(type) {
+		case *ast.BlockStmt:
+			b.List = r.rwList(b.List)
+		case *ast.CaseClause:
+			b.Body = r.rwList(b.Body)
+		case *ast.CommClause:
+			b.Body = r.rwList(b.Body)
+		}
+		return true
+	})
+}
+
+func (r *rewriter) rwList(list []ast.Stmt) []ast.Stmt {
+	out := make([]ast.Stmt, 0, len(list))
+	for _, s := range list {
+		var accs []acc
+		r.stmtAccesses(s, &accs)
+		seen := map[string]bool{}
+		for _, a := range accs {
+			key := fmt.Sprintf("%v|%s", a.write, a.site)
+			if seen[key] {
+				continue
+			}
+			seen[key] = true
+			fn := "R"
+			if a.write {
+				fn = "W"
+			}
+			var addr ast.Expr
+			if a.isMap {
+				addr = r.call("MapAddr", a.expr)
+			} else {
+				addr = r.call("Addr", &ast.UnaryExpr{Op: token.AND, X: a.expr})
+			}
+			out = append(out, &ast.ExprStmt{X: r.call(fn, addr, &ast.BasicLit{Kind: token.STRING, Value: strconv.Quote(a.site)})})
+			st.RW++
+			r.changed = true
+		}
+		out = append(out, s)
+	}
+	return out
+}
+
+func (r *rewriter) stmtAccesses(s ast.Stmt, out *[]acc) {
+	switch x := s.(type) {
+	case *ast.LabeledStmt:
+		r.stmtAccesses(x.Stmt, out)
+	case *ast.ExprStmt:
+		r.reads(x.X, out)
+	case *ast.AssignStmt:
+		for _, e := range x.Rhs {
+			r.reads(e, out)
+		}
+		for _, e := range x.Lhs {
+			if x.Tok == token.DEFINE {
+				continue
+			}
+			r.lhs(e, out, x.Tok != token.ASSIGN)
+		}
+	case *ast.IncDecStmt:
+		r.lhs(x.X, out, true)
+	case *ast.ReturnStmt:
+		for _, e := range x.Results {
+			r.reads(e, out)
+		}
+	case *ast.IfStmt:
+		if x.Init != nil {
+			r.stmtAccesses(x.Init, out)
+		}
+		r.reads(x.Cond, out)
+	case *ast.SwitchStmt:
+		if x.Init != nil {
+			r.stmtAccesses(x.Init, out)
+		}
+		if x.Tag != nil {
+			r.reads(x.Tag, out)
+		}
+	case *ast.TypeSwitchStmt:
+		if x.Init != nil {
+			r.stmtAccesses(x.Init, out)
+		}
+		r.stmtAccesses(x.Assign, out)
+	case *ast.ForStmt:
+		if x.Init != nil {
+			r.stmtAccesses(x.Init, out)
+		}
+		if x.Cond != nil {
+			r.reads(x.Cond, out)
+		}
+	case *ast.RangeStmt:
+		r.reads(x.X, out)
+		if tv, ok := r.pkg.TypesInfo.Types[x.X]; ok {
+			if _, isMap := tv.Type.Underlying().(*types.Map); isMap {
+				if c := r.cloneSimple(x.X); c != nil {
+					*out = append(*out, acc{expr: c, isMap: true, site: r.site(x.X)})
+				}
+			}
+		}
+	case *ast.SendStmt:
+		r.reads(x.Chan, out)
+		r.reads(x.Value, out)
+	case *ast.GoStmt:
+		for _, a := range x.Call.Args {
+			r.reads(a, out)
+		}
+	case *ast.DeferStmt:
+		for _, a := range x.Call.Args {
+			r.reads(a, out)
+		}
+	case *ast.DeclStmt:
+		if gd, ok := x.Decl.(*ast.GenDecl); ok {
+			for _, sp := range gd.Specs {
+				if vs, ok := sp.(*ast.ValueSpec); ok {
+					for _, v := range vs.Values {
+						r.reads(v, out)
+					}
+				}
+			}
+		}
+	}
+}
+
+func (r *rewriter) site(e ast.Expr) string {
+	p := r.fset.Position(e.Pos())
+	var b bytes.Buffer
+	printer.Fprint(&b, r.fset, e)
+	s := b.String()
+	if len(s) > 40 {
+		s = s[:40]
+	}
+	return fmt.Sprintf("%s:%d %s", filepath.Base(p.Filename), p.Line, s)
+}
+
+// isTrackedField reports whether sel selects a struct field that is plain shared memory of a
+// vivid type.
+func (r *rewriter) isTrackedField(sel *ast.SelectorExpr) bool {
+	s, ok := r.pkg.TypesInfo.Selections[sel]
+	if !ok || s.Kind() != types.FieldVal {
+		return false
+	}
+	f, ok := s.Obj().(*types.Var)
+	if !ok || f.Pkg() == nil || !strings.HasPrefix(f.Pkg().Path(), modPrefix) {
+		return false
+	}
+	// synchronisation primitives and channels are not plain memory
+	t := f.Type()
+	if _, isChan := t.Underlying().(*types.Chan); isChan {
+		return false
+	}
+	if n, ok := t.(*types.Named); ok && n.Obj().Pkg() != nil {
+		switch n.Obj().Pkg().Path() {
+		case "sync", "sync/atomic":
+			return false
+		}
+	}
+	if a, ok := t.(*types.Alias); ok {
+		if n, ok := types.Unalias(a).(*types.Named); ok && n.Obj().Pkg() != nil {
+			switch n.Obj().Pkg().Path() {
+			case "sync", "sync/atomic":
+				return false
+			}
+		}
+	}
+	return true
+}
+
+// addressable: can we write &e without changing behaviour?
+func (r *rewriter) addressable(e ast.Expr) bool {
+	switch x := e.(type) {
+	case *ast.Ident:
+		_, isVar := r.pkg.TypesInfo.Uses[x].(*types.Var)
+		return isVar
+	case *ast.ParenExpr:
+		return r.addressable(x.X)
+	case *ast.StarExpr:
+		return r.cloneSimple(x.X) != nil
+	case *ast.SelectorExpr:
+		s, ok := r.pkg.TypesInfo.Selections[x]
+		if !ok || s.Kind() != types.FieldVal {
+			return false
+		}
+		if s.Indirect() {
+			return r.cloneSimple(x.X) != nil
+		}
+		if tv, ok := r.pkg.TypesInfo.Types[x.X]; ok {
+			if _, isPtr := tv.Type.Underlying().(*types.Pointer); isPtr {
+				return r.cloneSimple(x.X) != nil
+			}
+		}
+		return r.addressable(x.X)
+	case *ast.IndexExpr:
+		tv, ok := r.pkg.TypesInfo.Types[x.X]
+		if !ok {
+			return false
+		}
+		switch tv.Type.Underlying().(type) {
+		case *types.Slice:
+			return r.cloneSimple(x.X) != nil && r.cloneSimple(x.Index) != nil
+		case *types.Array:
+			return r.addressable(x.X) && r.cloneSimple(x.Index) != nil
+		}
+		return false
+	}
+	return false
+}
+
+// cloneSimple clones side-effect-free expressions made of identifiers, field selections,
+// dereferences, literals and simple indexing; nil for anything else.
+func (r *rewriter) cloneSimple(e ast.Expr) ast.Expr {
+	switch x := e.(type) {
+	case *ast.Ident:
+		return ast.NewIdent(x.Name)
+	case *ast.BasicLit:
+		return &ast.BasicLit{Kind: x.Kind, Value: x.Value}
+	case *ast.ParenExpr:
+		if c := r.cloneSimple(x.X); c != nil {
+			return &ast.ParenExpr{X: c}
+		}
+	case *ast.StarExpr:
+		if c := r.cloneSimple(x.X); c != nil {
+			return &ast.StarExpr{X: c}
+		}
+	case *ast.SelectorExpr:
+		// package-qualified identifier or field selection (no method values)
+		if id, ok := x.X.(*ast.Ident); ok {
+			if _, isPkg := r.pkg.TypesInfo.Uses[id].(*types.PkgName); isPkg {
+				return &ast.SelectorExpr{X: ast.NewIdent(id.Name), Sel: ast.NewIdent(x.Sel.Name)}
+			}
+		}
+		if s, ok := r.pkg.TypesInfo.Selections[x]; !ok || s.Kind() != types.FieldVal {
+			return nil
+		}
+		if c := r.cloneSimple(x.X); c != nil {
+			return &ast.SelectorExpr{X: c, Sel: ast.NewIdent(x.Sel.Name)}
+		}
+	case *ast.IndexExpr:
+		tv, ok := r.pkg.TypesInfo.Types[x.X]
+		if !ok {
+			return nil
+		}
+		if _, isMap := tv.Type.Underlying().(*types.Map); isMap {
+			return nil // a map read may be tracked itself; do not nest
+		}
+		cx, ci := r.cloneSimple(x.X), r.cloneSimple(x.Index)
+		if cx != nil && ci != nil {
+			return &ast.IndexExpr{X: cx, Index: ci}
+		}
+	}
+	return nil
+}
+
+func (r *rewriter) field(sel *ast.SelectorExpr, write bool, out *[]acc) {
+	if !r.isTrackedField(sel) || !r.addressable(sel) {
+		return
+	}
+	c := r.cloneSimple(sel)
+	if c == nil {
+		return
+	}
+	*out = append(*out, acc{expr: c, write: write, site: r.site(sel)})
+}
+
+func (r *rewriter) mapAcc(m ast.Expr, write bool, out *[]acc) {
+	tv, ok := r.pkg.TypesInfo.Types[m]
+	if !ok {
+		return
+	}
+	if _, isMap := tv.Type.Underlying().(*types.Map); !isMap {
+		return
+	}
+	c := r.cloneSimple(m)
+	if c == nil {
+		return
+	}
+	*out = append(*out, acc{expr: c, isMap: true, write: write, site: r.site(m)})
+}
+
+func (r *rewriter) reads(e ast.Expr, out *[]acc) {
+	switch x := e.(type) {
+	case nil:
+	case *ast.FuncLit:
+		// its body is a block of its own
+	case *ast.ParenExpr:
+		r.reads(x.X, out)
+	case *ast.SelectorExpr:
+		r.field(x, false, out)
+		r.reads(x.X, out)
+	case *ast.StarExpr:
+		r.reads(x.X, out)
+	case *ast.UnaryExpr:
+		if x.Op == token.AND {
+			// address taken (typically for sync/atomic): not an access of the field itself
+			if s, ok := x.X.(*ast.SelectorExpr); ok {
+				r.reads(s.X, out)
+				return
+			}
+			if cl, ok := x.X.(*ast.CompositeLit); ok {
+				r.reads(cl, out)
+			}
+			return
+		}
+		r.reads(x.X, out)
+	case *ast.BinaryExpr:
+		r.reads(x.X, out)
+		if x.Op == token.LAND || x.Op == token.LOR {
+			return // the right operand is evaluated conditionally: hoisting it could dereference nil
+		}
+		r.reads(x.Y, out)
+	case *ast.IndexExpr:
+		r.mapAcc(x.X, false, out)
+		r.reads(x.X, out)
+		r.reads(x.Index, out)
+	case *ast.SliceExpr:
+		r.reads(x.X, out)
+		r.reads(x.Low, out)
+		r.reads(x.High, out)
+		r.reads(x.Max, out)
+	case *ast.TypeAssertExpr:
+		r.reads(x.X, out)
+	case *ast.KeyValueExpr:
+		r.reads(x.Value, out)
+	case *ast.CompositeLit:
+		for _, el := range x.Elts {
+			r.reads(el, out)
+		}
+	case *ast.CallExpr:
+		if id, ok := x.Fun.(*ast.Ident); ok {
+			if _, isB := r.pkg.TypesInfo.Uses[id].(*types.Builtin); isB {
+				switch id.Name {
+				case "len", "cap":
+					if len(x.Args) == 1 {
+						r.mapAcc(x.Args[0], false, out)
+					}
+				case "delete", "clear":
+					if len(x.Args) >= 1 {
+						r.mapAcc(x.Args[0], true, out)
+					}
+				}
+			}
+		}
+		if s, ok := x.Fun.(*ast.SelectorExpr); ok {
+			r.reads(s.X, out)        // receiver / package; the method itself is not a field
+			if r.isTrackedField(s) { // calling a func-typed field
+				r.field(s, false, out)
+			}
+		}
+		for _, a := range x.Args {
+			r.reads(a, out)
+		}
+	}
+}
+
+func (r *rewriter) lhs(e ast.Expr, out *[]acc, alsoRead bool) {
+	switch x := e.(type) {
+	case *ast.ParenExpr:
+		r.lhs(x.X, out, alsoRead)
+	case *ast.SelectorExpr:
+		r.field(x, true, out)
+		r.reads(x.X, out)
+	case *ast.IndexExpr:
+		if tv, ok := r.pkg.TypesInfo.Types[x.X]; ok {
+			if _, isMap := tv.Type.Underlying().(*types.Map); isMap {
+				r.mapAcc(x.X, true, out)
+			}
+		}
+		r.reads(x.X, out)
+		r.reads(x.Index, out)
+	case *ast.StarExpr:
+		r.reads(x.X, out)
+	}
 }
